@@ -115,7 +115,12 @@ theorem Inv.pollTask (S : RateSpec P) (I : Inv P E T w) (k : TaskId) : Inv P E T
   cases p with
   | none => exact I1
   | runOnce b =>
+    have hna : b.isAsync = false := by
+      have hb : b.benign = true := hp
+      cases b <;> first | rfl | (simp [Body.benign] at hb)
     have I2 := I1.runBody S b hp
+    dsimp only
+    rw [if_neg (by simp [hna])]
     exact I2.setSched _ (I2.benign.finishOnce k)
   | runTick b seq =>
     have I2 := I1.runTick S b hp seq
